@@ -311,6 +311,9 @@ func oracleC12(op string, a []string) string {
 		if !ok || len(w) == 0 {
 			return skip
 		}
+		if r := safely(func() string { return miGetter(a[0], w) }); strings.Contains(r, " !") {
+			return "FAIL getter " + a[0] + " is not a pure read: " + r
+		}
 		m := mobileIdentity(w)
 		switch {
 		case w[0]&7 == 2 && len(w) == 11: // 5G-GUTI
